@@ -17,13 +17,15 @@ RULE = ("cases = 14 pool-user scenarios (reader selections, level iteration, tas
         "pinned), seeded permutations beyond, in-process and fork-per-task isolation, serial mode "
         "where one exists; M2: real pools with workers in {1,2,3,5,16} and injected delays in "
         "subprocesses, and histories of several invocations in one process. one evaluation = one "
-        "run whose canonical digest (output tree + returned values; pestle scalar at 1e-12) is "
+        "run whose canonical digest (output tree + returned values, bit for bit) is "
         "compared with the reference run. distinct = hash(tool, input, schedule|workers); "
         "non-trivial = a non-identity order on a call with >=2 tasks, or a real pool with >=2 "
         "workers")
 ASSUMPTIONS = ["tasks are atomic (no tool makes two tasks write one file; the task log would show it)",
                "exhaustiveness is per pool call with the other calls pinned",
-               ".npz compared member-wise (zip entries carry wall-clock timestamps)"]
+               ".npz compared member-wise (zip entries carry wall-clock timestamps)",
+               "the pestle integral is compared bit for bit: the tool sums in submission order, so its value is "
+               "schedule- and worker-count-independent to the last bit"]
 REQUIRED_OBS = {"m1_runs": 300, "set:m1_schedules": 150, "set:tools_m1": 14, "m2_runs": 20,
                 "set:tools_m2": 14, "histories": 3, "serial_compared": 4}
 TIMEOUT = {"quick": 900, "thorough": 3600}
@@ -63,7 +65,7 @@ def same(ref, res):
         a, b = ref.get("scalar"), res.get("scalar")
         if a is None or b is None:
             return False
-        return abs(a - b) <= 1e-12 * max(abs(a), abs(b), 1e-300) and ref["parts"]["trees"] == res["parts"]["trees"]
+        return a == b and ref["parts"]["trees"] == res["parts"]["trees"]     # "the same" = the same bits
     return ref["digest"] == res["digest"]
 
 
